@@ -744,6 +744,8 @@ class Crate:
                 self.inlined_helpers |= inline_local_closure_calls(self.j, closure_keys)
                 self.inlined_helpers |= model_std_adaptors(self.j, closure_keys)
             self.inlined_helpers |= inline_unknown_helpers(self.j, known_names or set(), helper_keys)
+            if closure_keys and self.inlined_helpers:
+                self.inlined_helpers |= inline_local_closure_calls(self.j, closure_keys, second_pass=True)
             for b_ in self.j['bodies']:
                 if b_.get('inlined'):
                     thread_jumps(b_)
@@ -988,8 +990,11 @@ def _snapshot_captures(b, agg):
                 agg['_snapped'] = True
                 return
 
-def inline_local_closure_calls(j, closure_keys):
-    """A closure the rules have never seen (no counterpart in the reference tree) that is built in a body and called there
+def inline_local_closure_calls(j, closure_keys, second_pass=False):
+    """(second_pass: run again after the unknown helpers were spliced into their callers — a closure handed to a generic helper that
+    calls it, `helper(flag, || conv(me))`, is by then built and called in one body: the call goes through the helper's type parameter
+    (unresolved callee) and the closure value has travelled through plain moves, both followed here.)
+    A closure the rules have never seen (no counterpart in the reference tree) that is built in a body and called there
     directly (`let f = |x| ..; f(a); f(b)`) is spliced into that body at each call, with its captures resolved to the
     caller's locals. Returns the keys of closures that were fully absorbed that way."""
     import copy
@@ -1010,6 +1015,29 @@ def inline_local_closure_calls(j, closure_keys):
             for s in blk['stmts']:
                 if s['k'] == 'assign' and s['rv']['k'] == 'ref' and not s['rv']['place']['proj'] and s['rv']['place']['local'] in built and not s['dest']['proj']:
                     refs[s['dest']['local']] = s['rv']['place']['local']
+        alias = {l: l for l in built}
+        if second_pass:
+            nassign = defaultdict(int)
+            for blk in b['blocks']:
+                for s in blk['stmts']:
+                    if s['k'] == 'assign' and not s['dest']['proj']:
+                        nassign[s['dest']['local']] += 1
+                if blk['term']['k'] == 'call' and not blk['term']['dest']['proj']:
+                    nassign[blk['term']['dest']['local']] += 1
+            changed = True
+            while changed:
+                changed = False
+                for blk in b['blocks']:
+                    for s in blk['stmts']:
+                        if s['k'] == 'assign' and not s['dest']['proj'] and s['dest']['local'] not in alias and nassign[s['dest']['local']] == 1 \
+                                and s['rv']['k'] == 'use' and s['rv']['op']['k'] in ('move', 'copy') and not s['rv']['op']['place']['proj'] \
+                                and s['rv']['op']['place']['local'] in alias:
+                            alias[s['dest']['local']] = alias[s['rv']['op']['place']['local']]
+                            changed = True
+            for blk in b['blocks']:
+                for s in blk['stmts']:
+                    if s['k'] == 'assign' and s['rv']['k'] == 'ref' and not s['rv']['place']['proj'] and s['rv']['place']['local'] in alias and not s['dest']['proj']:
+                        refs[s['dest']['local']] = alias[s['rv']['place']['local']]
         sites = defaultdict(list)
         other_use = set()
         for bb, blk in enumerate(b['blocks']):
@@ -1019,13 +1047,14 @@ def inline_local_closure_calls(j, closure_keys):
             c = t['callee']
             a0 = t['args'][0] if t['args'] else None
             l0 = a0['place']['local'] if a0 and a0['k'] in ('move', 'copy') and not a0['place']['proj'] else None
-            cl = refs.get(l0, l0 if l0 in built else None)
-            if cl is not None and c.get('name') in ('call', 'call_mut', 'call_once') and c.get('resolved') == built[cl]['closure'] and len(t['args']) == 2:
+            cl = refs.get(l0, alias.get(l0))
+            if cl is not None and c.get('name') in ('call', 'call_mut', 'call_once') and len(t['args']) == 2 \
+                    and (c.get('resolved') == built[cl]['closure'] or (second_pass and not c.get('resolved'))):
                 sites[cl].append(bb)
             else:
                 for a in t['args']:
-                    if a['k'] in ('move', 'copy') and (a['place']['local'] in built or a['place']['local'] in refs):
-                        other_use.add(refs.get(a['place']['local'], a['place']['local']))
+                    if a['k'] in ('move', 'copy') and (a['place']['local'] in alias or a['place']['local'] in refs):
+                        other_use.add(refs.get(a['place']['local'], alias.get(a['place']['local'])))
         for cl, bbs in sites.items():
             if cl in other_use or len(b['blocks']) > 600:
                 continue
@@ -1037,7 +1066,7 @@ def inline_local_closure_calls(j, closure_keys):
             for bb in bbs:
                 t = b['blocks'][bb]['term']
                 callee = copy.deepcopy(orig)
-                by_value = t['callee'].get('name') == 'call_once' and t['args'][0]['place']['local'] == cl
+                by_value = t['callee'].get('name') == 'call_once' and t['args'][0]['place']['local'] in alias
                 _rewrite_upvars(callee, 1, by_value, agg['fields'])
                 # untuple the arguments: callee locals 2.. are the fields of the argument tuple
                 tup = t['args'][1]
